@@ -103,8 +103,11 @@ def check_C09(tier, seed, res, replay=None):
         base.append(present_nfa_pair({"id": ["r", i], "A": A, "B": B, "src": "random"}, rng))
     cases = []
     for c in base:
-        if rng.random() < 0.04:
+        r = rng.random()
+        if r < 0.04:
             alias_b(c, rng)
+        elif r < 0.12:
+            extend_b(c, rng)
         p = rng.choice([0, 0, 1, 3, 7])
         for sel in ("anti", "cd", "cb"):
             cases.append(dict(c, op="faincl", sel=sel, perturb=p))
@@ -184,12 +187,39 @@ def alias_b(d, rng):
     d.pop("preB", None)
 
 
+def extend_b(d, rng):
+    """B is a copy of A edited through the API: start / final states and edges ADDED (value: B contains A); no pre-operations"""
+    A = d["A"]
+    st = sorted(gen.nfa_states(A)) or [0]
+    B = json.loads(json.dumps(A))
+    sig = sorted(set(e[1] for e in A["delta"])) or ["a"]
+    if rng.random() < 0.5:
+        B["fin"] = sorted(set(B["fin"]) | {rng.choice(st)})
+    if rng.random() < 0.4:
+        B["start"] = sorted(set(B["start"]) | {rng.choice(st)})
+    for _ in range(rng.choice([0, 0, 1, 1, 2])):
+        e = [rng.choice(st), rng.choice(sig), rng.choice(st)]
+        if e not in B["delta"]:
+            B["delta"].append(e)
+    d["B"] = B
+    d["bmode"] = "extend"
+    if rng.random() < 0.5:
+        d["swap"] = True        # the edited copy is the first operand of the call
+    d.pop("preA", None)
+    d.pop("preB", None)
+
+
 def c10_variants(c, rng):
     out = []
     for kind in ("union", "isect"):
         d = with_pre(dict(present_nfa_pair(c, rng), op="faop", kind=kind), rng)
-        if rng.random() < 0.06:
+        r = rng.random()
+        if r < 0.06:
             alias_b(d, rng)
+        elif r < 0.14:
+            extend_b(d, rng)
+        if kind == "isect" and rng.random() < 0.3:
+            d["nomap"] = True
         out.append(d)
     out.append(with_pre(dict(present_nfa_pair(c, rng, disjoint=True), op="faop", kind="uniondisj"), rng))
     for kind, src in (("reverse", "A"), ("unreach", "B"), ("useless", "A"), ("witness", "B")):
